@@ -20,9 +20,10 @@ TValidate   == IsEvent("validate_lead") /\ ValidateLead(E.leadOk, E.ret, E.es, E
 TReadLead   == IsEvent("read_lead")     /\ ReadLead(E.leadOk, E.ret, E.es)
 TReadHeader == IsEvent("read_header")   /\ ReadHeader(E.sealed, E.wf, E.ret, E.es)
 TRewind     == IsEvent("rewind")        /\ Rewind(E.es)
+TReinit     == IsEvent("reinit")        /\ Reinit(E.ret, E.es)
 
 Init == PinInit /\ l = 1
-Next == TReset \/ TSetType \/ TSetDigest \/ TSetLen \/ TValidate \/ TReadLead \/ TReadHeader \/ TRewind
+Next == TReset \/ TSetType \/ TSetDigest \/ TSetLen \/ TValidate \/ TReadLead \/ TReadHeader \/ TRewind \/ TReinit
 Spec == Init /\ [][Next]_tvars
 
 Accepted == /\ PrintT(<<"MATCHED", TLCGet("stats").diameter - 1, Len(TraceLog)>>)
